@@ -92,6 +92,7 @@ namespace igris
             // переключатель строки истории на последнюю строку.
             _line.reset();
             _curhist = 0;
+            _state = READLINE_STATE_NORMAL;
         }
 
         size_t history_size()
